@@ -145,6 +145,33 @@ def handle (j : Json) : Json :=
            if mine == theirs then Json.mkObj ([("agree", Json.bool true)] ++ hidden)
            else Json.mkObj ([("agree", Json.bool false), ("model_sql", Json.str mine), ("impl_sql", Json.str theirs)] ++ hidden))
     | .error e => Json.mkObj [("bad", Json.str e)]
+  | .ok "cstep" =>
+    -- CREATE TABLE builder calls on the state read from a real receiver (see `bstep`)
+    match (do pure ((← dCreate (fld j "st")), (← (← fArr j "calls").mapM dCCall), (← jOpt dCreate (fld j "post"))) : D (CreateD × List DDLB.CCall × Option CreateD)) with
+    | .ok (st, calls, post) =>
+      (match DDLB.runC st calls with
+       | .error e => Json.mkObj [("exc", Json.str (strOf e))]
+       | .ok d' =>
+         let rtext (d : Doc) : String := match firstErr d with
+           | some e => "!exc:" ++ strOf e
+           | none => strOf (flatten d)
+         let c : Ctx := {}
+         -- the statement text, and the body clauses on their own (a state without columns renders as the empty text)
+         let rtext (x : CreateD) : String := rtext (renderCreate c x) ++ " | " ++ rtext (joinDocs (K ",") (x.bodyClauses (x.ctx c)))
+         let mine := rtext d'
+         match post with
+         | none => Json.mkObj [("sql", Json.str mine)]
+         | some pd =>
+           let theirs := rtext pd
+           -- the flags are compared as well: a flag that is not rendered in this state still matters to later calls
+           let flags (x : CreateD) : List Bool := [x.temporary, x.unlogged, x.ifNotExists, x.systemVersioning, x.local, x.preserveRows,
+             x.table.isSome, x.asSelect.isSome, (match x.primaryKey with | some pk => !pk.isEmpty | none => false),
+             (match x.foreignKey with | some (k, _, _) => !k.isEmpty | none => false)]
+           let shape (x : CreateD) : List Nat := [x.columns.length, x.periodFors.length, x.uniques.length]
+           if mine == theirs && flags d' == flags pd && shape d' == shape pd then Json.mkObj [("agree", Json.bool true)]
+           else Json.mkObj [("agree", Json.bool false), ("model_sql", Json.str mine), ("impl_sql", Json.str theirs),
+                            ("model_flags", toJson (flags d')), ("impl_flags", toJson (flags pd))])
+    | .error e => Json.mkObj [("bad", Json.str e)]
   | .ok "tbleq" =>
     match (do pure ((← dTbl (fld j "a")), (← dTbl (fld j "b"))) : D (Tbl × Tbl)) with
     | .ok (a, b) => Json.mkObj [("eq", Json.bool (a.beq b)), ("hash_eq", Json.bool (a.hashKey == b.hashKey)),
